@@ -529,7 +529,7 @@ pub fn serve_cfg(c: Cfg) {
     }
     if c.nranges == 1 {
         let (a, b) = rs[0];
-        rng_assert!(c, st == 206, "C03: satisfiable single range not answered 206");
+        rng_assert!(c, st == 206, "C02/C03: satisfiable single range not answered 206 (a 200 must carry the complete entity)");
         let cr = sn.val[S_CONTENT_RANGE];
         rng_assert!(c, cr.is_some() && sn.count[S_CONTENT_RANGE] == 1, "C02: 206 without Content-Range");
         let got = parse_content_range(cr.unwrap());
